@@ -295,7 +295,14 @@ class XPath1Parser(Parser[ta.XPathTokenType]):
             self.advance()
 
     def parse_sequence_type(self) -> XPathToken:
-        if self.next_token.label in ('kind test', 'sequence type', 'function test'):
+        if self.next_token.symbol == '(' and self.version >= '3.0':
+            # ParenthesizedItemType ::= "(" ItemType ")"
+            self.advance('(')
+            token = self.parse_sequence_type()
+            if token.symbol == 'empty-sequence' or token.occurrence:
+                raise token.wrong_syntax("an item type expected")
+            self.advance(')')
+        elif self.next_token.label in ('kind test', 'sequence type', 'function test'):
             token = self.expression(rbp=85)
         else:
             if self.next_token.symbol == 'Q{':
